@@ -131,6 +131,13 @@ def check_a(ck, repo):
     if n_filter == 0:
         ck.violated("C14.a", fi, f"{sw} filter", f"no statement filters tokens against {sw}: stop words are never removed")
     k = elem.get(tok, U)
+    helper_calls = [c_ for c_ in ast.walk(fi.node) if isinstance(c_, ast.Call) and isinstance(c_.func, ast.Attribute) and isinstance(c_.func.value, ast.Name) and c_.func.value.id in ("NGramsMixin", "self", "cls") and c_.func.attr.startswith("_") and c_.func.attr != "_word_ngrams"]
+    expanded_here = bool(getattr(repo, "expanded_helpers", {}).get(fi.module.relpath)) if getattr(fi, "module", None) is not None else False
+    if k == U and (helper_calls or expanded_here):
+        # the tokens come out of a call this abstract walk does not follow (a helper of the class
+        # called through the class, a generator..): their kind is not known, which is not "wrong"
+        ck.unknown("C14.a", fi, f"element kind of {tok} at the n-gram section: {k}", "the tokens reaching the n-gram section are produced by code this rule does not follow: whether each is a tuple of strings is not decided")
+        return
     ck.verdict(k == T, "C14.a", fi, f"element kind of {tok} at the n-gram section: {k}", "every token reaching the n-gram section is a tuple of strings", f"tokens reaching the n-gram section have kind {k} (expected tuple-of-str): vocabulary keys become nested tuples or plain strings instead of token tuples")
     # the join function flattens: str -> appended, tuple -> extended, result tuple(...)
     site = _append_site(fi)
@@ -182,7 +189,11 @@ def check_a(ck, repo):
                     bad += 1
             rets = [p.ret_text() for p in paths(t) if p.ret != RAISE]
             ok = good == 2 and bad == 0 and len(accs) == 1 and rets == [f"tuple({next(iter(accs))})"]
-        ck.verdict(ok, "C14.a", t, f"{t.name}: append(str) / extend(tuple) -> tuple(...)", "an n-gram is the flat tuple of its tokens", f"{t.name} does not flatten its tokens into one tuple")
+        has_gen = any(isinstance(n_, (ast.Yield, ast.YieldFrom)) for n_ in ast.walk(t.node))
+        if not ok and (has_gen or len(loops) != 1):
+            ck.unknown("C14.a", t, f"{t.name}: append(str) / extend(tuple) -> tuple(...)", f"{t.name} does not build the n-gram with one append/extend loop (a generator, or another construction): whether it flattens its tokens into one tuple is not decided")
+        else:
+            ck.verdict(ok, "C14.a", t, f"{t.name}: append(str) / extend(tuple) -> tuple(...)", "an n-gram is the flat tuple of its tokens", f"{t.name} does not flatten its tokens into one tuple")
 
 
 def _set_parents(tree):
@@ -448,7 +459,11 @@ def check_b(ck, repo):
     extra = [x for x in mine_b if x not in their_b]
     missing = [x for x in their_b if x not in mine_b]
     # the override binds `tokens` two more times before the section (stop-word filter is shared; wrapping is its own)
-    ck.verdict(not missing, "C14.b", fi, f"result list / lower bound bindings ({len(mine_b)})", "the result list starts and the lower bound is adjusted as in the parent (unigram shortcut included)", f"bindings of the parent missing in the override: {missing}: the unigram shortcut or the start of the result list changed")
+    opaque_calls = [c_ for c_ in ast.walk(fi.node) if isinstance(c_, ast.Call) and isinstance(c_.func, ast.Attribute) and isinstance(c_.func.value, ast.Name) and c_.func.value.id in ("NGramsMixin", "self", "cls") and c_.func.attr.startswith("_") and c_.func.attr not in ("_word_ngrams",)]
+    if missing and (opaque_calls or bool(getattr(repo, "expanded_helpers", {}).get(MOD.replace(".", "/") + ".py"))):
+        ck.unknown("C14.b", fi, f"result list / lower bound bindings ({len(mine_b)})", f"the result list is prepared through {src_of(opaque_calls[0].func)}(..), which this comparison with the parent does not look into")
+    else:
+      ck.verdict(not missing, "C14.b", fi, f"result list / lower bound bindings ({len(mine_b)})", "the result list starts and the lower bound is adjusted as in the parent (unigram shortcut included)", f"bindings of the parent missing in the override: {missing}: the unigram shortcut or the start of the result list changed")
     ck.extra["override_only_bindings"] = extra
     # filter precedes wrapping precedes n-grams: the element kinds decided by C14.a imply the order
 
